@@ -235,13 +235,18 @@ def run_c18(run, tier, wd, binary, replay):
     if tier == "quick":
         exprs = rng.sample(exprs, 2500)
     cases = [dict(kind="expr", text=e["text"], cfg=e["cfg"], val=e["val"]) for e in exprs]
+    # the field receives the expression's result whatever numeric type it has: small non-negative results also into sized, unsigned,
+    # float and pointer fields (the expected text is the same)
+    sized = ["int", "int64", "int32", "int8", "uint16", "float32", "puint8"]
+    cases += [dict(kind="expr", text=e["text"], cfg=e["cfg"], val=e["val"], ftype=sized[i % len(sized)])
+              for i, e in enumerate(x for x in exprs if str(x["val"]).isdigit() and int(x["val"]) <= 100)]
     cases += vl.validate_cases(rng, 300 if tier == "quick" else 5000)
     cases += vl.struct_validate_cases(rng, 150 if tier == "quick" else 3000)
     cases += vl.modifier_cases(rng, 200 if tier == "quick" else 4000)
     if replay:
         rec = json.load(open(replay))["replay"]["record"]
         if rec["kind"] == "expr":
-            cases = [dict(kind="expr", text=rec["text"], cfg=rec["cfg"], val=rec["want"])]
+            cases = [dict(kind="expr", text=rec["text"], cfg=rec["cfg"], val=rec["want"], ftype=rec.get("ftype", ""))]
         elif rec["kind"] == "vslice":
             cases = [dict(kind="vslice", xs=rec["xs"], cons=rec["cons"])]
         elif rec["kind"] == "vnest":
@@ -254,7 +259,7 @@ def run_c18(run, tier, wd, binary, replay):
         raise vlib.Infra("values harness failed: " + p.stderr[-800:])
     lines = open(os.path.join(bd, "vt.ndjson")).readlines()
     monitor_lines(run, bd, "TraceValuePipe", lines, {}, ["C18_ExprResult", "C18_ValidateIff", "C09_NoPanic"], "real binding",
-                  lambda rec: ("expression %r with %s: bound %s, expected %s" % (rec.get("text"), rec.get("cfg"), rec.get("got"), rec.get("want")))
+                  lambda rec: ("expression %r with %s into a field of type %s: bound %s, expected %s" % (rec.get("text"), rec.get("cfg"), rec.get("ftype") or "any", rec.get("got"), rec.get("want")))
                   if rec["kind"] == "expr" else ("%s value %s with constraints %s: ok=%s" % (rec["kind"], rec.get("x", rec.get("xs", rec.get("nx"))), rec.get("cons", "required on a nested struct member (pointer=%s)" % rec.get("ptr")), rec.get("ok"))), chunk=5000)
     for c in cases:
         run.count_case(c, c["kind"] in ("validate", "vslice", "vstruct", "vnest") or "${" in c.get("text", ""))
